@@ -53,6 +53,11 @@ CLAIMED = {
         "technique": "def-use co-indexing; sibling agreement across languages; range/mean/weight triple matching and prefix-sum read shapes on Cython parse trees",
         "note": _COMMON_NOTE + " The compiled extensions cannot be built offline here, so the analysis says nothing about binaries; Cython's parser is trusted to yield the tree the compiler would see. Central numerical claims of C09 are explicitly not decided.",
     },
+    "C10": {
+        "text": "Sibling-agreement and arithmetic rules over decision_tree_logreg.py: the four separately coded sites that split rows (fit, fit_improve, predict_proba, decision_path) compute the same canonical predicate prob[:, 1] > self.threshold and its exact complement, and the two read-side traversals recurse under identical guards — the 'three traversals agree' core of the property; gather/scatter pairing of rows, ids and probabilities; decision_path marks its own index before routing; child depth = depth + 1 behind the max_depth guard, index arithmetic (self.index + 1, last + 1, return last, n_nodes_ = last + 1); predict = classes_ taken at P >= 0.5 with classes_[1] as positive class; every node classifier is a clone. Holds for all inputs because it is a property of the code's shape; row sums of probabilities and the optimisation inside fit_improve are declined.",
+        "technique": "AST canonicalisation (comparison forms, complements) for sibling agreement; def-use gather/scatter signatures; structural index/depth arithmetic checks",
+        "note": _COMMON_NOTE + " Declined: probabilities summing to one, behaviour of fit_improve's optimisation.",
+    },
 }
 
 NOT_APPLICABLE = {}
